@@ -105,3 +105,25 @@ CLAIMS = {
  },
 }
 NOT_APPLICABLE = {f"C{i:02d}": PENDING for i in range(1, 21) if f"C{i:02d}" not in CLAIMS}
+
+# Clauses added after the independently seeded changes (DESIGN.md §10); appended to the claim text / technique.
+ADDENDA = {
+ "C01": ("Also decided: Truncate's flag tests one level below OpenFile (O_TRUNC cells); name relations in package keyvalue are tested on element boundaries; every nil return of MkdirAll follows the ancestor classifier's success edge.", "; one-level interprocedural constant evaluation; must-pass-through path rule"),
+ "C03": ("Also decided: a record is stored only where its path was found absent or not a directory; prefix tests between names are on element boundaries (keyvalue, mem, mount, helpers); mode updates keep io/fs.ModeType; in Rename children move after the destination record is stored and before the source record is deleted.", "; bitwise abstract evaluation of mode expressions; call-order rule over enumerated paths"),
+ "C05": ("Also decided: no value stored into PathError.Path / LinkError.Old/New anywhere in the module can be the empty string (trim results are compared with \"\" unless an element-boundary prefix is trimmed).", "; string non-emptiness analysis with dominator facts and callee return summaries"),
+ "C06": ("Also decided: AddMount's existence check opens the mount point through its own route; no Mount(name) route resolution is asked about a string that can never be valid (path.Split's directory half, trailing-slash concatenations).", "; shape rule on route arguments"),
+ "C07": ("Also decided: roots are joined with path.Join only (no string concatenation) and a view derived from a view keeps the parent's root on every alternative; no function returns a file system derived from a one-time Mount(dir) route resolution.", "; escape/provenance rule for route results"),
+ "C08": ("Also decided (sibling rules): all calls of one fallible callee inside a helper consult the same sentinels; a non-name parameter reaches every delegate unmodified.", "; contradiction/sibling-agreement rules"),
+ "C09": ("Also decided: no strings.Replace/ReplaceAll in package os deletes a non-constant pattern (roots come off the front only).", ""),
+ "C10": ("Also decided: a copy that was not written and closed successfully does not stay in the cache (the C11 fill analysis).", ""),
+ "C11": ("Also decided: the fill reads no slice-typed field of the file system value (no buffer shared between paths under the per-path lock).", "; field-access rule"),
+ "C12": ("Also decided: pool buffers are given back at most once per path (callees and spawned writers counted); the normaliser cleans the entry name itself, never a rooted string; directory entries are created in the read loop, not by a spawned writer.", "; per-path release counting with callee may-release summaries"),
+ "C15": ("Also decided: blob bounds are compared with a length read inside the critical section that slices; every transaction of the in-memory store holds the store mutex; a move (store under one name, delete under another) is issued on one Transaction value.", "; same-critical-section rule on bound facts"),
+ "C17": ("Also decided: every nil-error return of every File method lies on a path that consulted the closed mark or delegated; no File value is put into a sync.Pool.", "; must-pass-through path rule; who-may-call rule"),
+ "C18": ("Also decided: the store-locking constructor holds the mutex at every successful return; only Abort and Commit invoke a transaction's cancel function.", "; who-may-call rule"),
+ "C19": ("Also decided: bounds facts that justify a slice of the mutex-guarded buffer are established inside the critical section that slices.", ""),
+ "C20": ("Also decided: parallel subtest closures capture no loop variable shared between iterations (go 1.18 semantics); error-type helpers assert the error's own dynamic type (no errors.As); goroutines started in a loop are awaited after the loop.", "; loop/closure capture analysis on SSA"),
+}
+for _k, (_t, _q) in ADDENDA.items():
+    CLAIMS[_k]["text"] = CLAIMS[_k]["text"] + " " + _t
+    CLAIMS[_k]["technique"] = CLAIMS[_k]["technique"] + _q
